@@ -202,6 +202,13 @@ func RecordSizeWith(supi, ref string, units []models.ChfConvergedChargingMultipl
 	return len(b)
 }
 
+// SetPeerPorts points the CHF's Diameter clients at the given ports (they read the configuration at every request):
+// a port nobody listens on makes every attempt to reach that peer fail at once.
+func SetPeerPorts(rf, abmf int) {
+	factory.ChfConfig.Configuration.RfDiameter.Port = rf
+	factory.ChfConfig.Configuration.AbmfDiameter.Port = abmf
+}
+
 // SetAcctRequestNum puts the subscriber's credit-control request counter of a rating group where that many requests
 // would have left it (a state reachable only by sending them all).
 func SetAcctRequestNum(supi string, rg int32, n uint32) bool {
